@@ -372,19 +372,33 @@ impl BuiltinProp {
             }
             2 | 3 | 4 => {
                 // append(L1, L2, $O) / include($_, L, $O) / exclude(zzz, L, $O) must give exactly seq
-                if tail.is_some() { return CaseResult::Discard("open list as built-in input".into()); }
+                if matches!(tail.as_deref(), Some(Term::Anon)) { return CaseResult::Discard("open list as built-in input".into()); }
                 if builder == 4 && !want.is_ground() { return CaseResult::Discard("exclude needs a ground list".into()); }
+                // a tail variable is bound (by an earlier unification) to the rest of the sequence: the input is
+                // [e1 .. ek | $T] with $T = [ek+1 .. en], and the result must still be exactly e1 .. en
+                let (input, bound_tail): (Term, Option<Term>) = if tail.is_some() {
+                    let k = 1 + s.draw(n as u32) as usize;
+                    rep.class("built-in input with a bound tail variable");
+                    (Term::List(seq[..k].to_vec(), Some(Box::new(Term::var("$T")))), Some(Term::List(seq[k..].to_vec(), None)))
+                } else { (Term::List(seq.clone(), None), None) };
                 let g = match builder {
+                    2 if bound_tail.is_some() => Goal::BuiltIn("append".into(), vec![input.clone(), Term::List(vec![], None), Term::var("$O")]),
                     2 => { let k = s.draw(n as u32 + 1) as usize; Goal::BuiltIn("append".into(), vec![Term::List(seq[..k].to_vec(), None), Term::List(seq[k..].to_vec(), None), Term::var("$O")]) }
-                    3 => Goal::BuiltIn("include".into(), vec![Term::Anon, want.clone(), Term::var("$O")]),
-                    _ => Goal::BuiltIn("exclude".into(), vec![Term::atom("zzz"), want.clone(), Term::var("$O")]),
+                    3 => Goal::BuiltIn("include".into(), vec![Term::Anon, input.clone(), Term::var("$O")]),
+                    _ => Goal::BuiltIn("exclude".into(), vec![Term::atom("zzz"), input.clone(), Term::var("$O")]),
                 };
                 let eg = goal_to_engine(&g, &Ids::Map(&ids));
+                let tail_binding = bound_tail.as_ref().map(|t| to_engine(t, &Ids::Map(&ids)));
                 let r = guarded(1_000_000, || {
                     suiron::start_query();
                     let kb = suiron::KnowledgeBase::new();
                     let base = suiron::make_base_node(std::rc::Rc::new(suiron::make_query(vec![suiron::Unifiable::Atom("go".into())])), &kb);
-                    let sn = suiron::make_solution_node(std::rc::Rc::new(eg), &kb, std::rc::Rc::new(suiron::SubstitutionSet::new()), base);
+                    let mut ss0 = std::rc::Rc::new(suiron::SubstitutionSet::new());
+                    if let Some(tb) = &tail_binding {
+                        let tv = suiron::Unifiable::LogicVar { id: 4, name: "$T".into() };
+                        ss0 = tv.unify(tb, &ss0).expect("binding the tail variable");
+                    }
+                    let sn = suiron::make_solution_node(std::rc::Rc::new(eg), &kb, ss0, base);
                     suiron::next_solution(sn).map(|ss| ss[5].as_ref().map(|t| (**t).clone()))
                 });
                 let built = match r { Ok(Some(Some(u))) => u, Ok(o) => return fail(self.id, "no-result", format!("{} gave {:?}", g, o), case), Err(f) => return fail(self.id, "engine-failure", format!("{}: {:?}", g, f), case) };
